@@ -3,11 +3,11 @@ EXTENDS DSControl
 \* quick exhaustive configuration
 MC_Cfgs == [S : 1..3, P : 1..3, Start : {0, 1, 2, 4}, sched : {"none", "lin16"},
             End : {0, 20}, mode : {"rep", "pmapq", "shard"}, thr : {"zero", "pos"}]
-MC_Grad == {"ok", "zero", "nan", "huge"}
+MC_Grad == {"ok", "zero", "nan", "huge", "big"}
 MC_Err  == {"below", "atabove", "nan"}
 \* thorough exhaustive configuration
 MCT_Cfgs == [S : 1..4, P : 1..4, Start : 0..5, sched : {"none", "lin16", "half4"},
              End : {0, 1, 20, 100}, mode : {"rep", "pmapq", "shard"}, thr : {"zero", "pos"}]
-MCT_Grad == {"ok", "zero", "nan", "inf", "huge", "tiny"}
+MCT_Grad == {"ok", "zero", "nan", "inf", "huge", "tiny", "big", "small"}
 MCT_Err  == {"below", "atabove", "nan", "inf"}
 ====
